@@ -42,6 +42,7 @@ PROPS = {
             "note": "Trusted: Lean kernel + standard axioms, harness/generators/comparer, driver glue. SHA-256 is a parameter of the theorems and an executable model (validated on vectors) in the driver.",
         },
         "generators": ["C02"],
+        "gen_obligations": ["sighash_consts_match"],
         "thorough_seeds": 2,
         "rule": "transaction shapes 1..6 inputs x 0..6 outputs (every fifth shape has more inputs than outputs), script lengths on varint boundaries, edge amounts, nil previous scripts, odd-length txids; all 128 hash types with bit 0x40 on the first and last index and a sample on a random index, index = len and 2^32-1; plus the 500 shipped node vectors run through the specification. Non-trivial = a preimage was produced for a transaction with >= 2 inputs, or a node vector; distinct = distinct op line.",
         "nontrivial": _sh_nontrivial,
@@ -54,6 +55,7 @@ PROPS = {
             "note": "Trusted: Lean kernel + standard axioms, harness/generators/comparer, driver glue; SHA-256 executable model validated on vectors.",
         },
         "generators": ["C03"],
+        "gen_obligations": ["sighash_consts_match"],
         "thorough_seeds": 2,
         "rule": "as C02 with the 128 hash types without bit 0x40, inputs with/without unlocking scripts, SINGLE with index >= number of outputs, ANYONECANPAY with NONE; plus the 500 shipped legacy node vectors (code separators stripped). Non-trivial = a preimage was produced for a transaction with >= 2 inputs, or a node vector.",
         "nontrivial": _sh_nontrivial,
@@ -92,6 +94,7 @@ PROPS = {
             "note": "Trusted: Lean kernel + standard axioms, harness/generators/comparer, driver glue. Assumes sums of satoshis < 2^64 (no wrap-around), positive byte denominators, non-data change scripts, as the property states. For the existing-output destination the equality with the quoted fee of the *result* is decided by the correspondence predicate (the theorem gives the fee computed from the pre-change estimate).",
         },
         "generators": ["C10"],
+        "gen_obligations": ["dust_limit_matches"],
         "thorough_seeds": 2,
         "rule": "P2PKH / inscription funded transactions with 1..4 inputs (unsigned, empty or 100..108-byte unlocking scripts), 0..6 outputs and output counts 251..254, data outputs; nine fee quotes incl. rates above 1 sat/byte and unequal standard/data rates and denominators; destinations: new scripts of 1, 25, 26, 200, 253 bytes and inscriptions, existing index incl. out of range; amounts placed at fee-3 .. fee+100000 and around the fee-with-change threshold. Non-trivial = change operation returned ok.",
         "nontrivial": lambda op, impl: impl.startswith("ok"),
@@ -156,6 +159,7 @@ PROPS = {
             "note": "Partial: base58 Decode(Encode x) = x and the address round trip are exercised by correspondence, not yet proved (base58 bignum arithmetic of go-bk is modelled). SHA-256/RIPEMD-160 are parameters of the theorems and executable validated models in the driver. The clause 'accepted only with a correct checksum' is FALSE for the script-building entry points (known finding).",
         },
         "generators": ["C15"],
+        "gen_obligations": ["version_bytes_match"],
         "thorough_seeds": 1,
         "rule": "random 33-byte keys x both networks through all constructors; for 5 (quick) / 120 (thorough) valid addresses: all 34x57 substitutions (quick: 1 in 4), 33 transpositions, 35x58 insertions (quick: 1 in 6), 34 deletions, extra/missing leading 1, non-alphabet and non-ASCII characters, 6 wrong versions, 4 wrong payload lengths, wrong checksum, 8 wrap-around strings (payload + k*2^200); random base58 strings. Non-trivial = string of >= 20 characters or a key op.",
         "nontrivial": lambda op, impl: len(op) >= 48,
@@ -236,7 +240,7 @@ PROPS = {
         },
         "generators": ["C05"],
         "thorough_seeds": 2,
-        "gen_obligations": ["dispatch_table_matches", "limits_match", "flags_match"],
+        "gen_obligations": ["dispatch_table_matches", "limits_match", "flags_match", "locktime_consts_match"],
         "rule": "exhaustive: every unary opcode x edge operands (empty, 00, 80, 01, 81, 7f, ff, non-minimal, 4/5/9-byte, 32/33-byte negative, 519/520/521 and 2000-byte), every binary opcode x E x E, WITHIN x E'^3, shifts for operand lengths {0,1,2,3,4,16,33} x counts 0..8n+1 plus negative/huge counts, both eras; type-directed random programs (stack-depth aware, nested IF/NOTIF/ELSE/ENDIF with OP_RETURN, VERIF, disabled and undefined opcodes in executed and skipped branches) under sampled policy flags; conditional matrices; limit probes (200/201/499/500/501 ops, 999/1000/1001 items, 519/520/521 bytes, 9999/10000/10001-byte scripts); P2SH redeem scripts; push forms under MINIMALDATA. Non-trivial = program that executed at least 3 instructions.",
         "nontrivial": lambda op, impl: impl.count("|") >= 2,
         "trusted_base": COMMON_TB + ["fact extractor /verif/extract", "SHA-256 / SHA-1 / RIPEMD-160 executable models validated on vectors"],
